@@ -12,20 +12,22 @@ NTag(seq, tag) == Cardinality({k \in 1..Len(seq) : seq[k][2] = tag})
 Note(cond, seq, tag) == IF cond \/ NTag(seq, tag) >= 60 THEN seq ELSE Append(seq, <<l, tag>>)
 TInit == /\ l = 1 /\ viol = <<>> /\ drift = <<>> /\ nchk = 0 /\ cnt = [elf |-> 0, fuzz |-> 0, sys |-> 0, live |-> 0]
          /\ elf = [bits64 |-> TRUE] /\ pc = "trace" /\ bid = "none" /\ so = "none"
+Returned(e) == e.bid # "hang" /\ e.so # "hang"          \* the harness gives each reader 3 s (normal: microseconds)
 Gen == /\ E.ev = "elf"
-       /\ LET v1 == Note(E.bid # "panic" /\ E.so # "panic", viol, "C14-panic")
+       /\ LET v0 == Note(Returned(E), viol, "C14-reader-did-not-return")
+              v1 == Note(E.bid # "panic" /\ E.so # "panic", v0, "C14-panic")
               \* the image is a well-formed ELF lacking features at most: the answers must be the independent reader's
-              v2 == Note(E.bid # "panic" => E.bid = E.oracleBid, v1, "C14-build-id-differs-from-independent-reader")
-              v3 == Note(E.so # "panic" => E.so = E.oracleSo, v2, "C14-soname-differs-from-independent-reader")
+              v2 == Note(E.bid \notin {"panic", "hang"} => E.bid = E.oracleBid, v1, "C14-build-id-differs-from-independent-reader")
+              v3 == Note(E.so \notin {"panic", "hang"} /\ E.flags.dyn # "unterminated" => E.so = E.oracleSo, v2, "C14-soname-differs-from-independent-reader")
               v4 == Note(E.fileSame, v3, "C14-file-and-slice-disagree")
           IN viol' = v4
        /\ drift' = Note(E.bid = BuildIdOutcome(E.flags) /\ E.so = SonameOutcome(E.flags), drift, "strategy")
        /\ cnt' = [cnt EXCEPT !.elf = @ + 1] /\ nchk' = nchk + 1
 Fuzz == /\ E.ev = "fuzz"
-        /\ viol' = Note(E.bid # "panic" /\ E.so # "panic", viol, IF E.kind = "bytes" THEN "C14-panic-on-random-bytes" ELSE "C14-panic-on-corrupted-header-field")
+        /\ viol' = Note(E.bid # "panic" /\ E.so # "panic", Note(Returned(E), viol, "C14-reader-did-not-return"), IF E.kind = "bytes" THEN "C14-panic-on-random-bytes" ELSE "C14-panic-on-corrupted-header-field")
         /\ drift' = drift /\ cnt' = [cnt EXCEPT !.fuzz = @ + 1] /\ nchk' = nchk + 1
 Sys == /\ E.ev = "sys"
-       /\ viol' = Note(E.bid # "panic" /\ E.so # "panic", Note(E.bidAgree /\ E.soAgree, viol, "C14-system-file-differs-from-independent-reader"), "C14-panic")
+       /\ viol' = Note(E.bid # "panic" /\ E.so # "panic", Note(E.bidAgree /\ E.soAgree, Note(Returned(E), viol, "C14-reader-did-not-return"), "C14-system-file-differs-from-independent-reader"), "C14-panic")
        /\ drift' = drift /\ cnt' = [cnt EXCEPT !.sys = @ + 1] /\ nchk' = nchk + 1
 Live == /\ E.ev = "live"
         /\ viol' = Note(~E.panic /\ E.idSame /\ E.soSame, viol, "C14-memory-and-file-disagree")
